@@ -50,7 +50,7 @@ type ACtx struct {
 type Case struct {
 	Subj    string    `json:"subj"`
 	Signers []ASigner `json:"signers"`
-	Exp     []int     `json:"exp"`     // packed base-3 answers per context of the batch, nil: no expectation
+	Exp     []int     `json:"exp"`     // packed base-4 specified answers per context of the batch, nil: no expectation
 	ImpDiff [][]int   `json:"impdiff"` // [ctx(1-based), acct(1-based), code] where the Impl model differs
 	Deep    bool      `json:"deep"`    // observe on the deep universe instead of the batch's own contexts
 }
@@ -516,11 +516,13 @@ func pack(o []int) int {
 	return p
 }
 
-func digit(p, k int) int {
+// digit4 extracts the specified answer of account k from a packed (base 4) expectation:
+// 0 must refuse (false), 1 must grant, 2 must refuse (fault specified), 3 may grant or refuse.
+func digit4(p, k int) int {
 	for ; k > 0; k-- {
-		p /= 3
+		p /= 4
 	}
-	return p % 3
+	return p % 4
 }
 
 func frameClass(chain []AFrame) string {
@@ -531,31 +533,31 @@ func frameClass(chain []AFrame) string {
 	return f.Kind
 }
 
-func hasZero(s []ASigner) bool {
-	b, _ := json.Marshal(s)
-	return strings.Contains(string(b), `"Z"`)
-}
-
-func subjectScopes(s []ASigner, subj string) string {
-	for _, x := range s {
-		if x.Account == subj {
-			if len(x.Scopes) == 0 {
-				return "None"
-			}
-			return strings.Join(x.Scopes, "+")
-		}
-	}
-	return "-"
-}
-
-// Signature of a wrong grant / refusal: small and stable (class of account, scopes of the subject, class of frame).
+// Signature of a wrong grant / refusal: small and stable (class of account, scopes of the signer that was
+// asked for, class of frame); two special input classes get a signature of their own.
 func signature(kind, acct string, signers []ASigner, subj string, chain []AFrame) map[string]any {
 	sig := map[string]any{"kind": kind, "account": acct, "frame": frameClass(chain)}
-	if acct == "S" {
-		sig["scopes"] = subjectScopes(signers, subj)
-	}
-	if hasZero(signers) {
-		sig["special"] = "zero-hash-operand"
+	name := resolveAcct(acct, chain, subj)
+	for _, x := range signers {
+		if x.Account != name {
+			continue
+		}
+		sc := strings.Join(x.Scopes, "+")
+		if sc == "" {
+			sc = "None"
+		}
+		sig["scopes"] = sc
+		b, _ := json.Marshal(x)
+		special := ""
+		if strings.Contains(sc, "CustomGroups") && len(x.Groups) == 0 {
+			special = "custom-groups-empty-list"
+		} else if strings.Contains(string(b), `"Z"`) {
+			special = "zero-hash-operand"
+		}
+		if special != "" {
+			return map[string]any{"kind": kind, "frame": frameClass(chain), "special": special}
+		}
+		break
 	}
 	return sig
 }
@@ -728,18 +730,24 @@ func TestDriver(t *testing.T) {
 				if v == oNone || v == oMixed {
 					continue
 				}
-				e := digit(c.Exp[bi], k)
-				if corrupt > 0 && k == 0 {
-					e = 1 - e%2 // self-test: a corrupted expectation
+				e := digit4(c.Exp[bi], k)
+				if corrupt > 0 && k == 0 && e != 3 {
+					// self-test: a corrupted expectation
+					if e == 1 {
+						e = 0
+					} else {
+						e = 1
+					}
 					corrupt--
 				}
-				if (e == oTrue) != (v == oTrue) {
+				granted := v == oTrue
+				if (granted && e != 1 && e != 3) || (!granted && e == 1) {
 					kind := "granted-where-denied"
-					if e == oTrue {
+					if e == 1 {
 						kind = "refused-where-allowed"
 					}
 					res.Violate(signature(kind, b.Accts[k], o.signers, c.Subj, chain),
-						fmt.Sprintf("CheckWitness(%s) in context %s: observed %d, specified %d (0 false, 1 true, 2 fault)",
+						fmt.Sprintf("CheckWitness(%s) in context %s: observed %d (0 false, 1 true, 2 fault), specified %d (0 refuse, 1 grant, 2 refuse by fault, 3 either)",
 							resolveAcct(b.Accts[k], chain, c.Subj), deep.ctx[ci].ID, v, e),
 						map[string]any{"signers": o.signers, "ctx": deep.ctx[ci], "account": b.Accts[k], "observed": v, "specified": e})
 					res.Inc("grant_mismatches", 1)
@@ -749,7 +757,7 @@ func TestDriver(t *testing.T) {
 				if d, ok := imp[[2]int{bi, k}]; ok {
 					p = d
 				}
-				if p != v {
+				if p != 3 && p != v {
 					// the Impl model predicted something else although the abstract level is satisfied
 					res.Inc("drift", 1)
 					res.AddDrift(map[string]any{"signers": o.signers, "ctx": deep.ctx[ci].ID, "account": b.Accts[k], "observed": v, "impl_model": p, "abstract": e})
@@ -765,6 +773,13 @@ func TestDriver(t *testing.T) {
 			ci := cis[len(cis)/2]
 			res.Sample(map[string]any{"family": b.Family, "signers": o.signers, "ctx": deep.ctx[ci].ID, "accounts": b.Accts, "observed_packed_base3": pack(cr.obs[ci])})
 		}
+	}
+
+	// the same probes driven by real signed transactions in blocks
+	if vh.EnvInt("VERIF_BLOCKS", 1) != 0 {
+		nb := w.blockCells(t, deep, tr.Emit, func(k any) { res.Count(k); res.Evaluations += len(blockAccts) - 1 })
+		res.Inc("block_transactions", nb)
+		res.Traces += nb
 	}
 
 	// WitnessCondition.Match against a stub MatchContext, for every distinct condition seen above
